@@ -275,6 +275,12 @@ def stream_bytes(st, clocks, k_=1):
 
 
 def offsets_table(sysd):
+    txt = _offsets_table(sysd)
+    # _nonewline: the last line of the table has no line terminator (a table written by hand or cut by a tool)
+    return txt[:-1] if sysd.get("_nonewline") and txt.endswith("\n") else txt
+
+
+def _offsets_table(sysd):
     looms = sorted(set(sysd["loom"]))
     txt = "rank       hostname             offset_median        offset_mean          offset_std\n"
     if sysd.get("_samehost"):
@@ -683,6 +689,10 @@ def main(pid, tier):
     for i, c in enumerate(cases):
         if i % 4 == 2 and len(set(c["loom"])) >= 2:
             c["_prefixhost"] = True
+    #  _nonewline: no line terminator after the last row of the table
+    for i, c in enumerate(cases):
+        if i % 7 == 5:
+            c["_nonewline"] = True
     #  _emptypart: an additional stream that is not a thread and has no events
     for i, c in enumerate(cases):
         if i % 6 == 4:
